@@ -11,6 +11,9 @@ REPO = os.environ.get('VERIF_REPO', '/repo')
 
 NO_DEBUG = [['+', 'core', '::', 'fmt', '::', 'Debug'], '', 'X1']
 
+X8_RK = [[['Some', '(', '&', 'first_byte', ')', '=>', 'first_byte'], 'Some(first_byte) => *first_byte', 'X8'],
+         [['Some', '(', '&', 'last_byte', ')', '=>', 'last_byte'], 'Some(last_byte) => *last_byte', 'X8']]
+
 UNION = {'target_arch': ['x86_64', 'aarch64', 'wasm32'], 'target_feature': ['sse2', 'neon', 'simd128'],
          'feature': ['alloc'], 'target_endian': 'little', 'target_pointer_width': '64'}
 
@@ -40,14 +43,14 @@ reg(part('sse2_memchr', 'src/arch/x86_64/sse2/memchr.rs', 'arch::x86_64::sse2::m
 reg(part('avx2_memchr', 'src/arch/x86_64/avx2/memchr.rs', 'arch::x86_64::avx2::memchr'))
 reg(part('all_memchr', 'src/arch/all/memchr.rs', 'arch::all::memchr', deref_idents=['ptr']))
 reg(part('all_mod', 'src/arch/all/mod.rs', 'arch::all'))
-reg(part('all_rabinkarp', 'src/arch/all/rabinkarp.rs', 'arch::all::rabinkarp',
+reg(part('all_rabinkarp', 'src/arch/all/rabinkarp.rs', 'arch::all::rabinkarp', x14=True, rewrites=X8_RK,
          keep_derives=['Clone', 'Copy', 'PartialEq', 'Eq', 'Default']))
 # X8 (DESIGN 2.1, ref pattern in a match arm): `Some(&first_byte) => first_byte` -> `Some(first_byte) => *first_byte`
-reg(part('all_twoway', 'src/arch/all/twoway.rs', 'arch::all::twoway',
+reg(part('all_twoway', 'src/arch/all/twoway.rs', 'arch::all::twoway', x14=True,
          rewrites=[[['Some', '(', '&', 'first_byte', ')', '=>', 'first_byte'], 'Some(first_byte) => *first_byte', 'X8']]))
 # X8 (ref pattern in closure parameter, DESIGN 2.1): `|&b| b != self.byte2` -> `|b| *b != self.byte2`
 X8_PP = [[['|', '&', 'b', '|', 'b', '!=', 'self', '.', 'byte2'], '|b| *b != self.byte2', 'X8']]
-reg(part('all_packedpair', 'src/arch/all/packedpair/mod.rs', 'arch::all::packedpair', rewrites=X8_PP))
+reg(part('all_packedpair', 'src/arch/all/packedpair/mod.rs', 'arch::all::packedpair', x14=True, rewrites=X8_PP))
 reg(part('all_default_rank', 'src/arch/all/packedpair/default_rank.rs', 'arch::all::packedpair::default_rank'))
 reg(part('generic_packedpair', 'src/arch/generic/packedpair.rs', 'arch::generic::packedpair'))
 reg(part('sse2_packedpair', 'src/arch/x86_64/sse2/packedpair.rs', 'arch::x86_64::sse2::packedpair'))
@@ -56,7 +59,7 @@ reg(part('avx2_packedpair', 'src/arch/x86_64/avx2/packedpair.rs', 'arch::x86_64:
 S_OPTS = dict(debug_asserts='drop', asserts='panic')
 reg(part('s_vector', 'src/vector.rs', 'vector', drop_items=['mod aarch64neon', 'mod wasm_simd128'], **S_OPTS))
 reg(part('s_all_mod', 'src/arch/all/mod.rs', 'arch::all', **S_OPTS))
-reg(part('s_all_packedpair', 'src/arch/all/packedpair/mod.rs', 'arch::all::packedpair', rewrites=X8_PP, **S_OPTS))
+reg(part('s_all_packedpair', 'src/arch/all/packedpair/mod.rs', 'arch::all::packedpair', x14=True, rewrites=X8_PP, **S_OPTS))
 reg(part('s_generic_packedpair', 'src/arch/generic/packedpair.rs', 'arch::generic::packedpair', **S_OPTS))
 reg(part('s_sse2_packedpair', 'src/arch/x86_64/sse2/packedpair.rs', 'arch::x86_64::sse2::packedpair', **S_OPTS))
 reg(part('s_avx2_packedpair', 'src/arch/x86_64/avx2/packedpair.rs', 'arch::x86_64::avx2::packedpair', **S_OPTS))
@@ -73,13 +76,6 @@ def clone_part(new, old, **extra):
     return p
 
 
-X8_RK = [[['Some', '(', '&', 'first_byte', ')', '=>', 'first_byte'], 'Some(first_byte) => *first_byte', 'X8'],
-         [['Some', '(', '&', 'last_byte', ')', '=>', 'last_byte'], 'Some(last_byte) => *last_byte', 'X8']]
-clone_part('all_rabinkarp_x', 'all_rabinkarp', x14=True, rewrites=PARTS['all_rabinkarp']['opts']['rewrites'] + X8_RK)
-clone_part('all_packedpair_x', 'all_packedpair', x14=True)
-clone_part('s_all_packedpair_x', 's_all_packedpair', x14=True)
-clone_part('all_twoway_x', 'all_twoway', x14=True)
-clone_part('all_twoway_c', 'all_twoway')
 reg(part('all_shiftor', 'src/arch/all/shiftor.rs', 'arch::all::shiftor', x14=True))
 
 # ---- aarch64 / wasm32 (text the host never compiles): intrinsics paths are redirected to the trusted ISA prelude
@@ -149,21 +145,21 @@ BUILDS = {
     'main': dict(parts=['ext', 'vector', 'generic_memchr', 'sse2_memchr', 'avx2_memchr', 'all_memchr', 'x86_64_memchr',
                         'memchr_top', 'root_reexport', 'all_mod', 'all_rabinkarp', 'all_packedpair', 'all_default_rank',
                         'generic_packedpair', 'sse2_packedpair', 'avx2_packedpair', 'memmem_reexport', 'memmem_pre_full',
-                        'memmem_glue', 'all_twoway'],
-                 prelude=P0 + ['prelude/x_eqrk.vrs', 'prelude/x_pp.vrs', 'prelude/x_tw.vrs', 'prelude/hist.vrs']),
+                        'memmem_glue', 'all_twoway', 'all_shiftor'],
+                 prelude=P0 + ['prelude/x_eqrk.vrs', 'prelude/x_pp.vrs', 'prelude/x_tw.vrs', 'prelude/x_twc.vrs', 'prelude/x_so.vrs', 'prelude/hist.vrs']),
     'dev_glue': dict(parts=['ext', 'vector', 'generic_memchr', 'sse2_memchr', 'avx2_memchr', 'all_memchr', 'x86_64_memchr',
                             'memchr_top', 'root_reexport', 'all_mod', 'all_rabinkarp', 'all_packedpair', 'all_default_rank',
                             'generic_packedpair', 'sse2_packedpair', 'avx2_packedpair', 'memmem_reexport', 'memmem_pre_full',
-                            'memmem_glue', 'all_twoway'],
-                     prelude=P0 + ['prelude/x_eqrk.vrs', 'prelude/x_pp.vrs', 'prelude/x_tw.vrs', 'prelude/x_glue.vrs']),
-    'dev_rkx': dict(parts=['ext', 'vector', 'all_mod', 'all_rabinkarp_x'], prelude=P0 + ['prelude/x_eqrk.vrs']),
-    'dev_ppx': dict(parts=BASE + ['stub_root', 'all_mod', 'all_packedpair_x', 'all_default_rank', 'generic_packedpair',
+                            'memmem_glue', 'all_twoway', 'all_shiftor'],
+                     prelude=P0 + ['prelude/x_eqrk.vrs', 'prelude/x_pp.vrs', 'prelude/x_tw.vrs', 'prelude/x_twc.vrs', 'prelude/x_glue.vrs']),
+    'dev_rkx': dict(parts=['ext', 'vector', 'all_mod', 'all_rabinkarp'], prelude=P0 + ['prelude/x_eqrk.vrs']),
+    'dev_ppx': dict(parts=BASE + ['stub_root', 'all_mod', 'all_packedpair', 'all_default_rank', 'generic_packedpair',
                                   'sse2_packedpair', 'avx2_packedpair'], prelude=P0 + ['prelude/x_eqrk.vrs', 'prelude/x_pp.vrs']),
-    'dev_ppsx': dict(parts=['ext', 'stub_root', 's_vector', 's_all_mod', 's_all_packedpair_x', 'all_default_rank', 's_generic_packedpair',
+    'dev_ppsx': dict(parts=['ext', 'stub_root', 's_vector', 's_all_mod', 's_all_packedpair', 'all_default_rank', 's_generic_packedpair',
                             's_sse2_packedpair', 's_avx2_packedpair'], prelude=P0 + ['prelude/x_eqrk.vrs', 'prelude/x_pp.vrs']),
-    'dev_twx': dict(parts=['ext', 'vector', 'all_mod', 'stub_all_memchr', 'memmem_reexport', 'memmem_pre', 'all_twoway_x'],
+    'dev_twx': dict(parts=['ext', 'vector', 'all_mod', 'stub_all_memchr', 'memmem_reexport', 'memmem_pre', 'all_twoway'],
                     prelude=P0 + ['prelude/x_eqrk.vrs', 'prelude/x_tw.vrs']),
-    'dev_twc': dict(parts=['ext', 'vector', 'all_mod', 'stub_all_memchr', 'memmem_reexport', 'memmem_pre', 'all_twoway_c'],
+    'dev_twc': dict(parts=['ext', 'vector', 'all_mod', 'stub_all_memchr', 'memmem_reexport', 'memmem_pre', 'all_twoway'],
                     prelude=P0 + ['prelude/x_eqrk.vrs', 'prelude/x_twc.vrs']),
     'dev_so': dict(parts=['ext', 'vector', 'all_mod', 'all_shiftor'], prelude=P0 + ['prelude/x_so.vrs']),
     # other targets (text the x86_64 host never compiles)
@@ -183,8 +179,8 @@ BUILDS = {
     # the substring front end against assumed searcher contracts (stubs)
     'memmem': dict(parts=['ext', 'vector', 'generic_memchr', 'sse2_memchr', 'avx2_memchr', 'all_memchr', 'x86_64_memchr',
                           'memchr_top', 'root_reexport', 'all_mod', 'all_rabinkarp', 'all_packedpair', 'all_default_rank',
-                          'stub_twoway', 'cow', 'memmem_mod', 'memmem_pre', 'memmem_searcher'],
-                   prelude=P0 + ['prelude/x_eqrk.vrs', 'prelude/x_pp.vrs', 'prelude/x_memmem.vrs']),
+                          'all_twoway', 'cow', 'memmem_mod', 'memmem_pre', 'memmem_searcher'],
+                   prelude=P0 + ['prelude/x_eqrk.vrs', 'prelude/x_pp.vrs', 'prelude/x_tw.vrs', 'prelude/x_twc.vrs', 'prelude/x_memmem.vrs']),
     # development builds (one per porting task; each may add its own prelude/x_<name>.vrs)
     'dev_generic': dict(parts=BASE, prelude=P0),
     'dev_eq': dict(parts=['ext', 'vector', 'all_mod'], prelude=P0),
